@@ -21,6 +21,7 @@ from common import CACHE, RSASS, seed  # noqa: E402
 
 import engine  # noqa: E402
 import kernels  # noqa: E402
+import kernels2  # noqa: E402
 import mir  # noqa: E402
 import smt  # noqa: E402
 import sym  # noqa: E402
@@ -31,6 +32,9 @@ KERNELS = {
     "C03": ["k_load_module", "k_lock_pairing"],
     "C04": ["k_find_file", "k_do_find_file", "k_fsloader_find", "k_lock_pairing"],
     "C39": ["k_find_file", "k_do_find_file", "k_fsloader_find"],
+    "C38": ["k_entry_points", "k_for_path", "k_value_text"],
+    "C34": ["k_expose_tables", "k_meta_call"],
+    "C22": ["k_placeholder_algebra"],
     "C06": ["k_unique_id", "k_random"],
     "C11": ["k_plus_minus_units", "k_numeric_cmp", "k_unitset_simplify"],
     "C13": ["k_map_merge", "k_map_find_value", "k_map_literal", "k_map_set_inner", "k_deep_merge"],
@@ -622,6 +626,95 @@ STRUCTURAL_PROBES["k_module_init"] = [
     (({"a.scss": '@use "lib";\n.main { c: lib.$v }\n', "_lib.scss": "$v: 1 + 1;\n"}, "[compressed]a.scss"), ".main{c:2}"),
 ]
 _FLAKY = {"a.scss": '@use "lib";\n@import "old";\na { b: lib.$x; c: $y }\n', "_lib.scss": "$x: 1;\n", "_old.scss": "$y: 2;\n"}
+_C38_FORMATS = [("expanded", 10), ("compressed", 10), ("expanded", 3), ("compressed", 5)]
+_C38_VALUES = ["(1/3)", "10px * 1.23456789", "red", "#aabbcc", "rgb(0, 0, 205)", "rgba(1, 2, 3, .4567891234)", '"a" + "b"', "(a, b c)", "1.5em + 2",
+               "[a, b]", "1e-7", "1234567.891234567", "hsl(10deg, 20%, 30.123456789%)", "a b/c", "-0.00000001", "#{(10/3)}px", "w-#{(2/3)}", "calc(1px + #{(1/3)}%)"]
+STRUCTURAL_PROBES["k_value_text"] = [(("rel", "value-vs-declaration", v, st, pr), None) for v in _C38_VALUES for st, pr in _C38_FORMATS]
+_C38_DOCS = ["a { b: (1/3); c: 10px * 1.23456789 }", "a { b { c: d } /* k */ e: f }", "@media print { a { b: c } }", "a { b: (1/0) }", "a { @error \"no\" }",
+             "a { b: ", "$x: 0.123456789; a { b: $x; c: rgba(1, 2, 3, $x) }", "@function f($a) { @return $a * 2 } a { b: f(1.00001) }"]
+STRUCTURAL_PROBES["k_entry_points"] = [(("rel", "entries-agree", d, st, pr), None) for d in _C38_DOCS for st, pr in _C38_FORMATS]
+STRUCTURAL_PROBES["k_for_path"] = STRUCTURAL_PROBES["k_entry_points"]
+# C34: (module, local name, global name, positional arguments, parameter names) -- both forms, by position and by name
+_C34_CALLS = [
+    ("string", "quote", "quote", ["abc"], ["string"]), ("string", "index", "str-index", ['"abcb"', '"b"'], ["string", "substring"]),
+    ("string", "insert", "str-insert", ['"abc"', '"X"', "2"], ["string", "insert", "index"]), ("string", "length", "str-length", ['"abc d"'], ["string"]),
+    ("string", "slice", "str-slice", ['"abcdef"', "2", "4"], ["string", "start-at", "end-at"]), ("string", "slice", "str-slice", ['"abcdef"', "-3"], ["string", "start-at"]),
+    ("string", "to-upper-case", "to-upper-case", ['"aBc"'], ["string"]), ("string", "to-lower-case", "to-lower-case", ['"aBc"'], ["string"]),
+    ("string", "to-upper-case", "to-upper-case", ['"aB\u00e4\u00d6\u00df"'], ["string"]), ("string", "to-lower-case", "to-lower-case", ['"aB\u00e4\u00d6\u00dc"'], ["string"]),
+    ("string", "length", "str-length", ['"\u00e4\u00f6\U0001F46D"'], ["string"]), ("string", "slice", "str-slice", ['"\u00e4b\u00e7d\U0001F46Df"', "2", "-2"], ["string", "start-at", "end-at"]),
+    ("string", "index", "str-index", ['"\u00e4b\u00e7d"', '"\u00e7"'], ["string", "substring"]), ("string", "insert", "str-insert", ['"\u00e4b\u00e7"', '"X"', "-2"], ["string", "insert", "index"]),
+    ("string", "quote", "quote", ['"a\\"b"'], ["string"]), ("string", "unquote", "unquote", ['"\\"a\\""'], ["string"]),
+    ("string", "unquote", "unquote", ['"a b"'], ["string"]),
+    ("list", "append", "append", ["(a b)", "c"], ["list", "val"]), ("list", "append", "append", ["(a b)", "c", "comma"], ["list", "val", "separator"]),
+    ("list", "index", "index", ["(a b c)", "b"], ["list", "value"]), ("list", "is-bracketed", "is-bracketed", ["[a b]"], ["list"]),
+    ("list", "join", "join", ["(a b)", "(c, d)"], ["list1", "list2"]), ("list", "length", "length", ["(a b c)"], ["list"]),
+    ("list", "separator", "list-separator", ["(a, b)"], ["list"]), ("list", "nth", "nth", ["(a b c)", "-1"], ["list", "n"]),
+    ("list", "set-nth", "set-nth", ["(a b c)", "2", "x"], ["list", "n", "value"]), ("list", "zip", "zip", ["(a b)", "(c d)"], None),
+    ("map", "get", "map-get", ["(a: 1, b: 2)", "b"], ["map", "key"]), ("map", "has-key", "map-has-key", ["(a: 1, b: 2)", "c"], ["map", "key"]),
+    ("map", "keys", "map-keys", ["(a: 1, b: 2)"], ["map"]), ("map", "merge", "map-merge", ["(a: 1)", "(b: 2, a: 3)"], ["map1", "map2"]),
+    ("map", "remove", "map-remove", ["(a: 1, b: 2)", "a"], ["map", "key"]), ("map", "values", "map-values", ["(a: 1, b: 2)"], ["map"]),
+    ("math", "ceil", "ceil", ["1.2px"], ["number"]), ("math", "floor", "floor", ["-1.2"], ["number"]), ("math", "percentage", "percentage", ["0.255"], ["number"]),
+    ("math", "compatible", "comparable", ["1px", "2em"], ["number1", "number2"]), ("math", "compatible", "comparable", ["1px", "2in"], ["number1", "number2"]),
+    ("math", "is-unitless", "unitless", ["1px"], ["number"]), ("math", "unit", "unit", ["1px"], ["number"]),
+    ("meta", "inspect", "inspect", ["(a b, c)"], ["value"]), ("meta", "type-of", "type-of", ["1px"], ["value"]),
+    ("meta", "feature-exists", "feature-exists", ['"at-error"'], ["feature"]), ("meta", "function-exists", "function-exists", ['"nth"'], ["name"]),
+    ("meta", "variable-exists", "variable-exists", ['"nope"'], ["name"]), ("meta", "global-variable-exists", "global-variable-exists", ['"nope"'], ["name"]),
+    ("meta", "mixin-exists", "mixin-exists", ['"nope"'], ["name"]),
+    ("selector", "is-superselector", "is-superselector", ['"a"', '"a.b"'], ["super", "sub"]), ("selector", "append", "selector-append", ['"a"', '".b"'], None),
+    ("selector", "extend", "selector-extend", ['"a.b"', '".b"', '".c"'], ["selector", "extendee", "extender"]), ("selector", "nest", "selector-nest", ['"a"', '"b"'], None),
+    ("selector", "parse", "selector-parse", ['"a b, c"'], ["selector"]), ("selector", "replace", "selector-replace", ['"a.b"', '".b"', '".c"'], ["selector", "original", "replacement"]),
+    ("selector", "unify", "selector-unify", ['"a"', '".b"'], ["selector1", "selector2"]), ("selector", "simple-selectors", "simple-selectors", ['"a.b"'], ["selector"]),
+    ("color", "adjust", "adjust-color", ["#abc", "$red: 5"], None), ("color", "change", "change-color", ["#abc", "$lightness: 5%"], None),
+    ("color", "scale", "scale-color", ["#abc", "$red: 10%"], None), ("color", "complement", "complement", ["#abc"], ["color"]),
+    ("color", "ie-hex-str", "ie-hex-str", ["rgba(1, 2, 3, .5)"], ["color"]), ("color", "mix", "mix", ["#abc", "#123", "30%"], ["color1", "color2", "weight"]),
+    ("color", "red", "red", ["#abc"], ["color"]), ("color", "green", "green", ["#abc"], ["color"]), ("color", "blue", "blue", ["#abc"], ["color"]),
+    ("color", "hue", "hue", ["#abc"], ["color"]), ("color", "saturation", "saturation", ["#abc"], ["color"]), ("color", "lightness", "lightness", ["#abc"], ["color"]),
+    ("color", "alpha", "alpha", ["rgba(1, 2, 3, .5)"], ["color"]),
+]
+
+
+def _c34_probes():
+    out = []
+    for mod, lname, gname, args, names in _C34_CALLS:
+        pos = ", ".join(args)
+        out.append((("rel", "same-value", "%s(%s)" % (gname, pos), "%s.%s(%s)" % (mod, lname, pos)), None))
+        if names:
+            named = ", ".join("$%s: %s" % (n, a) for n, a in zip(names, args))
+            out.append((("rel", "same-value", "%s(%s)" % (gname, named), "%s.%s(%s)" % (mod, lname, named)), None))
+            out.append((("rel", "same-value", "%s.%s(%s)" % (mod, lname, pos), "%s.%s(%s)" % (mod, lname, named)), None))
+            if len(args) > 1:   # mixed: first by position, the rest by name
+                mixed = ", ".join([args[0]] + ["$%s: %s" % (n, a) for n, a in list(zip(names, args))[1:]])
+                out.append((("rel", "same-value", "%s(%s)" % (gname, mixed), "%s.%s(%s)" % (mod, lname, pos)), None))
+        out.append((("rel", "same-value", "meta.call(meta.get-function(%s), %s)" % ('"%s"' % gname, pos), "%s(%s)" % (gname, pos)), None))
+    return out
+
+
+STRUCTURAL_PROBES["k_expose_tables"] = _c34_probes()
+STRUCTURAL_PROBES["k_meta_call"] = [p for p in _c34_probes() if "meta.call" in p[0][2]] + [
+    (("rel", "same-value", "meta.call(meta.get-function(\"f\"), 2, $b: 3)", "f(2, $b: 3)"), None),
+    (("rel", "same-value", "meta.call(meta.get-function(\"f\"), (2 3)...)", "f(2, 3)"), None),
+    (("rel", "same-value", "meta.call(meta.get-function(\"length\", $module: \"string\"), \"abc\")", "string.length(\"abc\")"), None),
+    (("rel", "same-value", "meta.call(meta.get-function(\"nth\"), (a b c), $n: 2)", "nth((a b c), $n: 2)"), None),
+    # a user function shadowing a built-in, and a star-used module member named like another global: both forms must pick the same one
+    (("rel", "same-value", "meta.call(meta.get-function(\"percentage\"), 4)", "percentage(4)", "@function percentage($number) { @return $number * 2 }\n"), None),
+    (("rel", "same-value", "meta.call(meta.get-function(\"nth\"), (a b c), 2)", "nth((a b c), 2)", "@function nth($l, $i) { @return shadow }\n"), None),
+    (("rel", "same-value", "meta.function-exists(\"g\")", "true", "@function g() { @return 1 }\n"), None),
+]
+STRUCTURAL_PROBES["k_placeholder_algebra"] = [
+    ("[exact]a, %p { b: c }", "a { b: c; }"), ("[exact]%p { b: c }", ""), ("[exact]a:not(%p) { b: c }", "a { b: c; }"), ("[exact]a:is(%p) { b: c }", ""),
+    ("[exact]a:is(%p, b) { b: c }", "a:is(b) { b: c; }"), ("[exact]a %p, c { b: c }", "c { b: c; }"), ("[exact]:not(%p) { b: c }", "* { b: c; }"),
+    ("[exact]a:not(%p, b) { b: c }", "a:not(b) { b: c; }"), ("[exact]%p a, d > %q, e { b: c }", "e { b: c; }"), ("[exact]a { %p & { b: c } }", ""),
+    ("[exact]%p { a { b: c } }", ""), ("[exact]a:not(:is(%p)) { b: c }", "a { b: c; }"), ("[exact]a:where(%p, b c) { b: c }", "a:where(b c) { b: c; }"),
+    ("[exact]x %p y { b: c } z { d: e }", "z { d: e; }"), ("[exact]a:matches(%p) { b: c }", ""), ("[exact]a:not(%p):not(b) { b: c }", "a:not(b) { b: c; }"),
+    ("[exact]a, %p, b, %q, c { d: e }", "a, b, c { d: e; }"), ("[exact]a:hover, %p:hover { d: e }", "a:hover { d: e; }"),
+    ("[exact]a::before, %p::before { d: e }", "a::before { d: e; }"), ("[exact]a:has(%p) { d: e }", ""), ("[exact]a:not(%p) b:is(%q) { d: e }", ""),
+    ("[exact]a:is(> b, %p) { d: e }", ""), ("[exact][compressed]a, %p, b { d: e }", "a,b{d:e}"), ("[exact][compressed]a:not(%p, b) c, %q { d: e }", "a:not(b) c{d:e}"),
+    ("[exact]a:not(%p) > b, c:is(%q) + d, e { f: g }", "a > b, e { f: g; }"), ("[exact]a:not(b:not(%p)) { f: g }", "a:not(b) { f: g; }"),
+    ("[exact]a:not(:not(%p)) { f: g }", ""), ("[exact]a:is(b:not(%p), %q c) { f: g }", "a:is(b) { f: g; }"),
+    ("[exact]a, :not(%p) { b: c }", "* { b: c; }"), ("[exact]a:is(:not(%p)) { b: c }", "a { b: c; }"), ("[exact]:is(:not(%p)) x { c: d }", "x { c: d; }"),
+    ("[exact]a:not(:not(%p), b) { f: g }", ""), ("[exact]a:not(:is(:not(%p))) { f: g }", ""), ("[exact]> a { b: c }", "> a { b: c; }"),
+    ("[exact]a { > b { c: d } }", "a > b { c: d; }"),
+]
 STRUCTURAL_PROBES["k_do_find_file"] = STRUCTURAL_PROBES["k_find_file"] + [((_FLAKY, "[fail-lookup %d]a.scss" % k), "<error>") for k in range(6)] + [
     ((_FLAKY, "[fail-lookup 99]a.scss"), "a { b: 1; c: 2; }")]
 STRUCTURAL_PROBES["k_fsloader_find"] = STRUCTURAL_PROBES["k_find_file"]
@@ -640,6 +733,11 @@ def structural_probe(kernel, label=""):
         return None
     diffs = []
     for src, want in probes:
+        if isinstance(src, tuple) and src and src[0] == "rel":  # a relation between native runs, no expected text
+            d = relation_probe(src)
+            if d:
+                diffs.append(d)
+            continue
         if isinstance(src, tuple):  # several files on disk
             files, entry = src
             comp = entry.startswith("[compressed]")
@@ -653,18 +751,68 @@ def structural_probe(kernel, label=""):
             if any(want not in v for v in vals):
                 diffs.append({"files": files, "entry": entry, "want": want, "got": vals})
             continue
-        if "{" in src:  # a whole stylesheet: the expected text must occur in the output
-            comp = src.startswith("[compressed]")
-            doc = src[len("[compressed]"):] if comp else src
+        if "{" in src:  # a whole stylesheet: the expected text must occur in the output ([exact]: be the output)
+            exact = src.startswith("[exact]")
+            src1 = src[len("[exact]"):] if exact else src
+            comp = src1.startswith("[compressed]")
+            doc = src1[len("[compressed]"):] if comp else src1
             outs = [native.run_scss(doc, prof, comp) for prof in ("dev", "release")]
             vals = [(" ".join(r["message"].split()) if r["outcome"] == "ok" else "<%s>" % r["outcome"]) for r in outs]
-            if any(want not in v for v in vals):
+            if any((want != v) if exact else (want not in v) for v in vals):
                 diffs.append({"scss": src, "want": want, "got": vals})
             continue
         vals, outs = _css_value(src)
         if any(v != want for v in vals):
             diffs.append({"scss": src, "want": want, "got": vals})
     return {"probes": len(probes), "disagreements": diffs, "reproduced": bool(diffs) or None}
+
+
+_FULL_PRELUDE = ("@use 'sass:math'; @use 'sass:color'; @use 'sass:string'; @use 'sass:list'; @use 'sass:map'; "
+                 "@use 'sass:meta'; @use 'sass:selector';\n@function f($a, $b: 10) { @return $a * 100 + $b }\n")
+
+
+def _decl_value(r, compressed):
+    if r["outcome"] != "ok":
+        return "<%s>" % r["outcome"]
+    m = re.search(r"y:(.*?)}" if compressed else r"y: (.*);", r["message"], re.S)
+    return m.group(1) if m else "<no declaration>"
+
+
+def relation_probe(src):
+    """("rel", kind, ...) -> None if the relation holds natively in both profiles, else a description."""
+    kind = src[1]
+    for prof in ("dev", "release"):
+        if kind == "same-value":          # two expressions must print the same (or both fail)
+            a, b = src[2], src[3]
+            extra = src[4] if len(src) > 4 else ""
+            ra = native.run_scss(_FULL_PRELUDE + extra + "x{y: meta.inspect(%s)}" % a, prof)
+            rb = native.run_scss(_FULL_PRELUDE + extra + "x{y: meta.inspect(%s)}" % b, prof)
+            va, vb = _decl_value(ra, False), _decl_value(rb, False)
+            if va != vb:
+                return {"relation": "%s == %s" % (a, b), "profile": prof, "got": [va, vb]}
+        elif kind == "value-vs-declaration":   # compile_value(v) == the text of `y: v` in a declaration
+            v, style, prec = src[2], src[3], src[4]
+            rv = native.run_api("value", style, prec, v, prof)
+            rd = native.run_api("scss", style, prec, "x{y: %s}" % v, prof)
+            tv = rv["message"] if rv["outcome"] == "ok" else "<%s>" % rv["outcome"]
+            td = _decl_value(rd, style == "compressed")
+            if tv != td:
+                return {"relation": "compile_value(%s) == declaration text [%s, precision %s]" % (v, style, prec), "profile": prof, "got": [tv, td]}
+        elif kind == "entries-agree":          # compile_scss == for_cwd().with_format().transform() == compile_scss_path(file with the same bytes)
+            doc, style, prec = src[2], src[3], src[4]
+            import shutil
+            import tempfile
+            d = tempfile.mkdtemp(prefix="kaj-rsass-c38-")
+            try:
+                with open(os.path.join(d, "in.scss"), "w") as f:
+                    f.write(doc)
+                outs = [native.run_api(e, style, prec, a, prof) for e, a in (("scss", doc), ("transform", doc), ("path", os.path.join(d, "in.scss")))]
+            finally:
+                shutil.rmtree(d, ignore_errors=True)
+            texts = [(r["message"] if r["outcome"] == "ok" else "<%s>" % r["outcome"]) for r in outs]
+            if len(set(texts)) != 1:
+                return {"relation": "compile_scss == transform == compile_scss_path [%s, precision %s] on %r" % (style, prec, doc), "profile": prof, "got": texts}
+    return None
 
 
 def lift(ob):
@@ -740,7 +888,7 @@ def run(pid, tier, known, log, write_replay_file):
     known_ids = {k["id"]: k for k in known if k.get("status") == "known" and k.get("property") == pid and k.get("engine") == "E2"}
     records, violations, inconclusive, known_hits = [], [], [], []
     for kn in names:
-        fn = getattr(kernels, kn, None)
+        fn = getattr(kernels, kn, None) or getattr(kernels2, kn, None)
         if fn is None:
             inconclusive.append("E2 kernel %s is not implemented" % kn)
             continue
@@ -831,7 +979,7 @@ def replay(doc, log):
     def lg(m):
         print("[replay] " + m, flush=True)
     E = get_engine(lg)
-    fn = getattr(kernels, doc["kernel"])
+    fn = getattr(kernels, doc["kernel"], None) or getattr(kernels2, doc["kernel"])
     sym.CURRENT_KERNEL = doc["kernel"]
     rec = fn(E, "quick").to_dict()
     for ob in rec["obligations"]:
